@@ -3,7 +3,7 @@
 // exit code 0 or a documented error; it never reports a "Fatal Error", never
 // dies with a Go panic, never hangs, and every table it loads is rectangular.
 //
-// Sub-checks:
+// Sub-checks (cli_programs, url_tables: see their files; cli_subcommands: subcmd_test.go; programs also prog2..prog4_test.go):
 //
 //	load_data  (load_test.go)  in-process, byte strings x formats x option vectors x three ways of loading
 //	programs   (prog_test.go)  in-process, boundary arguments to every clause and built-in function, output formats
